@@ -37,6 +37,10 @@ class Tracer:
                 return ("fn", o["fn"])
             if "closure" in o:
                 return ("closure", o["closure"], ())
+            if "pinit" in o:
+                pe = self._promoted(o["pinit"])
+                if pe is not None:
+                    return ("ref", pe)
             val = o.get("val")
             if val is None and "str" in o:
                 val = o["str"]
@@ -46,6 +50,18 @@ class Tracer:
         if k in ("copy", "move"):
             return self.place(o["p"], pos, depth)
         return ("local", -1, "rtcheck")
+
+    def _promoted(self, inits):
+        """value of a promoted constant from its initialising assignments (no control flow)"""
+        env = {it["l"]: it["r"] for it in inits}
+        sub = _PromotedTracer(env)
+        last = inits[-1]["l"]
+        # the referent is usually local 1; prefer it when present
+        root = 1 if 1 in env else last
+        try:
+            return sub.rvalue(env[root], (0, 0))
+        except Exception:
+            return None
 
     def place(self, p, pos, depth=0):
         e = self.local(p["l"], pos, depth)
@@ -207,6 +223,20 @@ class Tracer:
         if k == "repeat":
             return ("repeat", self.operand(r["a"], pos, depth), r.get("n"))
         return ("local", -1, "rvalue:" + k)
+
+
+class _PromotedTracer(Tracer):
+    def __init__(self, env):
+        self.env = env
+        self.memo = {}
+        self.stack = set()
+        self.fn = None
+        self.prog = None
+
+    def local(self, l, pos, depth=0):
+        if depth > 20 or l not in self.env:
+            return ("local", l, "promoted")
+        return self.rvalue(self.env[l], pos, depth + 1)
 
 
 def _has_cyclic(e):
